@@ -40,6 +40,7 @@
 #include "count_min.hpp"
 #include "tdigest.hpp"
 #include "density_sketch.hpp"
+#include "MurmurHash3.h"
 
 namespace life {
 using namespace datasketches;
@@ -104,7 +105,8 @@ struct ThetaAd {
     auto r = u.get_result(false); (void)r.get_estimate();
   }
   static void reset(S& s, int) { s.reset(); }
-  static void serialize(const S& s) { auto c = s.compact(); auto b = c.serialize(); fixed_ostream ss; c.serialize(ss); auto z = c.serialize_compressed(); }
+  static void serialize(const S& s) { auto c = s.compact(); auto b = c.serialize(); fixed_ostream ss; c.serialize(ss); auto z = c.serialize_compressed();
+    auto d = compact_theta_sketch_alloc<A>::deserialize(z.data(), z.size(), DEFAULT_SEED, A(7)); (void)d.get_estimate(); }
   static void image(const S& s, Bytes& out) {
     put(out, s.compact(true).serialize());
     put_pod(out, s.get_theta64()); put_pod(out, s.get_num_retained()); put_pod(out, (int)s.is_empty()); put_pod(out, (int)s.get_lg_k());
@@ -152,7 +154,8 @@ struct ThetaSetAd {
     t = u.get_result();
   }
   static void reset(S& s, int aid) { A a(aid); I x(DEFAULT_SEED, a); x.update(s); x.update(input(a, 0).compact()); N n(DEFAULT_SEED, a); s = n.compute(x.get_result(), s); }
-  static void serialize(const S& s) { auto b = s.serialize(); fixed_ostream ss; s.serialize(ss); auto z = s.serialize_compressed(); }
+  static void serialize(const S& s) { auto b = s.serialize(); fixed_ostream ss; s.serialize(ss); auto z = s.serialize_compressed();
+    auto d = S::deserialize(b.data(), b.size(), DEFAULT_SEED, A(7)); auto e = S::deserialize(z.data(), z.size(), DEFAULT_SEED, A(7)); (void)d.get_estimate(); (void)e.get_estimate(); }
   static void image(const S& s, Bytes& out) { put(out, s.serialize()); put_pod(out, (int)s.is_ordered()); }
 };
 
@@ -170,7 +173,8 @@ struct KllAd {
   template<class B> static void merge(S& a, B& b) { a.merge(b); }
   static void merge_move(S& a, S&& b) { a.merge(std::move(b)); }
   static void reset(S& s, int aid) { s = S(8, probe_less(), A(aid)); }
-  static void serialize(const S& s) { auto b = s.serialize(0, probe_serde()); fixed_ostream ss; s.serialize(ss, probe_serde()); }
+  static void serialize(const S& s) { auto b = s.serialize(0, probe_serde()); fixed_ostream ss; s.serialize(ss, probe_serde());
+    { auto d = S::deserialize(b.data(), b.size(), probe_serde(), probe_less(), A(7)); (void)d.get_n(); } }
   static void image(const S& s, Bytes& out) { put(out, s.serialize(0, probe_serde())); put_pod(out, s.get_n()); put_pod(out, s.get_num_retained()); }
 };
 
@@ -188,7 +192,8 @@ struct ReqAd {
   template<class B> static void merge(S& a, B& b) { a.merge(b); }
   static void merge_move(S& a, S&& b) { a.merge(std::move(b)); }
   static void reset(S& s, int aid) { s = S(4, true, probe_less(), A(aid)); }
-  static void serialize(const S& s) { auto b = s.serialize(0, probe_serde()); fixed_ostream ss; s.serialize(ss, probe_serde()); }
+  static void serialize(const S& s) { auto b = s.serialize(0, probe_serde()); fixed_ostream ss; s.serialize(ss, probe_serde());
+    { auto d = S::deserialize(b.data(), b.size(), probe_serde(), probe_less(), A(7)); (void)d.get_n(); } }
   static void image(const S& s, Bytes& out) { put(out, s.serialize(0, probe_serde())); put_pod(out, s.get_n()); put_pod(out, s.get_num_retained()); }
 };
 
@@ -205,7 +210,8 @@ struct FiAd {
   template<class B> static void merge(S& a, B& b) { a.merge(b); }
   static void merge_move(S& a, S&& b) { a.merge(std::move(b)); }
   static void reset(S& s, int aid) { s = S(4, 3, probe_equal(), A(aid)); }
-  static void serialize(const S& s) { auto b = s.serialize(0, probe_serde()); fixed_ostream ss; s.serialize(ss, probe_serde()); }
+  static void serialize(const S& s) { auto b = s.serialize(0, probe_serde()); fixed_ostream ss; s.serialize(ss, probe_serde());
+    { auto d = S::deserialize(b.data(), b.size(), probe_serde(), probe_equal(), A(7)); (void)d.get_total_weight(); } }
   static void image(const S& s, Bytes& out) {
     put(out, s.serialize(0, probe_serde())); put_pod(out, s.get_total_weight()); put_pod(out, s.get_maximum_error()); put_pod(out, s.get_num_active_items());
   }
@@ -218,11 +224,23 @@ struct HllAd {
   typedef hll_union_alloc<A> U;
   static const char* name() { return "hll"; }
   static void construct(void* p, int aid) { new (p) S(9, HLL_4, false, A(aid)); }
-  static void mutate(S& s, int op) { for (int v : stream(op == 2 ? 1 : op, op == 2 ? 40 : 600)) s.update((uint64_t)v + (op == 2 ? 7000000 : 0)); }
+  // items whose coupon value (leading zeros of the second hash word + 1) is >= 18: in HLL_4 mode they do not fit a nibble
+  // above cur_min and go to the auxiliary hash map; a dozen of them make that map grow
+  static const std::vector<uint64_t>& rare() {
+    static std::vector<uint64_t> r;
+    if (r.empty()) { Quiet q; for (uint64_t x = 1; r.size() < 14; x++) { HashState h; MurmurHash3_x64_128(&x, sizeof x, DEFAULT_SEED, h); if ((h.h2 >> 47) == 0) r.push_back(x); } }
+    return r;
+  }
+  static void warm_up() { (void)rare(); }
+  static void mutate(S& s, int op) {
+    for (int v : stream(op == 2 ? 1 : op, op == 2 ? 40 : 600)) s.update((uint64_t)v + (op == 2 ? 7000000 : 0));
+    if (op == 1) for (uint64_t x : rare()) s.update(x);      // HLL mode: aux map insertions and growth
+  }
   template<class B> static void merge(S& a, B& b) { U u(9, A(9)); u.update(a); u.update(b); a = u.get_result(HLL_4); }
   static void merge_move(S& a, S&& b) { U u(9, A(9)); u.update(a); u.update(std::move(b)); a = u.get_result(HLL_4); }
   static void reset(S& s, int) { s.reset(); }
-  static void serialize(const S& s) { auto b = s.serialize_compact(); auto c = s.serialize_updatable(); fixed_ostream ss; s.serialize_compact(ss); s.serialize_updatable(ss); }
+  static void serialize(const S& s) { auto b = s.serialize_compact(); auto c = s.serialize_updatable(); fixed_ostream ss; s.serialize_compact(ss); s.serialize_updatable(ss);
+    { auto d = S::deserialize(b.data(), b.size(), A(7)); auto e = S::deserialize(c.data(), c.size(), A(7)); (void)d.get_estimate(); (void)e.get_estimate(); } }
   static void image(const S& s, Bytes& out) { put(out, s.serialize_updatable()); put(out, s.serialize_compact()); }
 };
 
@@ -261,12 +279,16 @@ struct CpcAd {
   typedef cpc_sketch_alloc<A> S;
   typedef cpc_union_alloc<A> U;
   static const char* name() { return "cpc"; }
+  // the CPC compression tables are one process-wide immutable object, created on first use with plain new ("use new for
+  // global initialization" in cpc_compressor_impl.hpp) and independent of any sketch or allocator instance: created here
+  static void warm_up() { (void)get_compressor<A>(); }
   static void construct(void* p, int aid) { new (p) S(6, DEFAULT_SEED, A(aid)); }
   static void mutate(S& s, int op) { for (int v : stream(op == 2 ? 1 : op, op == 2 ? 45 : 500)) s.update((uint64_t)v + (op == 2 ? 7000000 : 0)); }
   template<class B> static void merge(S& a, B& b) { U u(6, DEFAULT_SEED, a.get_allocator()); u.update(a); u.update(b); a = u.get_result(); }
   static void merge_move(S& a, S&& b) { U u(6, DEFAULT_SEED, a.get_allocator()); u.update(a); u.update(std::move(b)); a = u.get_result(); }
   static void reset(S& s, int aid) { s = S(6, DEFAULT_SEED, A(aid)); }
-  static void serialize(const S& s) { auto b = s.serialize(); fixed_ostream ss; s.serialize(ss); }
+  static void serialize(const S& s) { auto b = s.serialize(); fixed_ostream ss; s.serialize(ss);
+    { auto d = S::deserialize(b.data(), b.size(), DEFAULT_SEED, A(7)); (void)d.get_estimate(); } }
   static void image(const S& s, Bytes& out) { put(out, s.serialize()); put_pod(out, s.get_estimate()); }
 };
 
@@ -276,6 +298,7 @@ struct CpcUnionAd {
   typedef cpc_union_alloc<A> S;
   typedef cpc_sketch_alloc<A> SK;
   static const char* name() { return "cpcunion"; }
+  static void warm_up() { (void)get_compressor<A>(); }
   static void construct(void* p, int aid) { new (p) S(6, DEFAULT_SEED, A(aid)); }
   static void mutate(S& s, int op) {
     A a = s.get_result().get_allocator();
@@ -328,7 +351,8 @@ struct TupleAd {
     auto r = u.get_result(false); (void)r.get_estimate();
   }
   static void reset(S& s, int) { s.reset(); }
-  static void serialize(const S& s) { auto c = s.compact(); auto b = c.serialize(0, probe_serde()); fixed_ostream ss; c.serialize(ss, probe_serde()); }
+  static void serialize(const S& s) { auto c = s.compact(); auto b = c.serialize(0, probe_serde()); fixed_ostream ss; c.serialize(ss, probe_serde());
+    { auto d = compact_tuple_sketch<probe_item, A>::deserialize(b.data(), b.size(), DEFAULT_SEED, probe_serde(), A(7)); (void)d.get_estimate(); } }
   static void image(const S& s, Bytes& out) { put(out, s.compact(true).serialize(0, probe_serde())); put_pod(out, s.get_theta64()); put_pod(out, s.get_num_retained()); }
 };
 
@@ -366,7 +390,8 @@ struct TupleSetAd {
     t = u.get_result();
   }
   static void reset(S& s, int aid) { A a(aid); UP u = typename UP::builder(probe_tuple_policy(), a).set_lg_k(5).build(); s = u.compact(); }
-  static void serialize(const S& s) { auto b = s.serialize(0, probe_serde()); fixed_ostream ss; s.serialize(ss, probe_serde()); }
+  static void serialize(const S& s) { auto b = s.serialize(0, probe_serde()); fixed_ostream ss; s.serialize(ss, probe_serde());
+    { auto d = S::deserialize(b.data(), b.size(), DEFAULT_SEED, probe_serde(), A(7)); (void)d.get_estimate(); } }
   static void image(const S& s, Bytes& out) { put(out, s.serialize(0, probe_serde())); put_pod(out, (int)s.is_ordered()); }
 };
 
@@ -384,7 +409,8 @@ struct QuantAd {
   template<class B> static void merge(S& a, B& b) { a.merge(b); }
   static void merge_move(S& a, S&& b) { a.merge(std::move(b)); }
   static void reset(S& s, int aid) { s = S(4, probe_less(), A(aid)); }
-  static void serialize(const S& s) { auto b = s.serialize(0, probe_serde()); fixed_ostream ss; s.serialize(ss, probe_serde()); }
+  static void serialize(const S& s) { auto b = s.serialize(0, probe_serde()); fixed_ostream ss; s.serialize(ss, probe_serde());
+    { auto d = S::deserialize(b.data(), b.size(), probe_serde(), probe_less(), A(7)); (void)d.get_n(); } }
   static void image(const S& s, Bytes& out) { put(out, s.serialize(0, probe_serde())); put_pod(out, s.get_n()); put_pod(out, s.get_num_retained()); }
 };
 
@@ -402,7 +428,8 @@ struct VarOptAd {
   template<class B> static void merge(S& a, B& b) { U u(8, A(9)); u.update(a); u.update(b); a = u.get_result(); }
   static void merge_move(S& a, S&& b) { U u(8, A(9)); u.update(a); u.update(std::move(b)); a = u.get_result(); }
   static void reset(S& s, int) { s.reset(); }
-  static void serialize(const S& s) { auto b = s.serialize(0, probe_serde()); fixed_ostream ss; s.serialize(ss, probe_serde()); }
+  static void serialize(const S& s) { auto b = s.serialize(0, probe_serde()); fixed_ostream ss; s.serialize(ss, probe_serde());
+    { auto d = S::deserialize(b.data(), b.size(), probe_serde(), A(7)); (void)d.get_n(); } }
   static void image(const S& s, Bytes& out) { put(out, s.serialize(0, probe_serde())); put_pod(out, s.get_n()); put_pod(out, s.get_num_samples()); }
 };
 
@@ -429,7 +456,8 @@ struct VarOptUnionAd {
   template<class B> static void merge(S& a, B& b) { SK r = b.get_result(); a.update(r); }
   static void merge_move(S& a, S&& b) { a.update(b.get_result()); S sink(std::move(b)); }
   static void reset(S& s, int) { s.reset(); }
-  static void serialize(const S& s) { auto b = s.serialize(0, probe_serde()); fixed_ostream ss; s.serialize(ss, probe_serde()); }
+  static void serialize(const S& s) { auto b = s.serialize(0, probe_serde()); fixed_ostream ss; s.serialize(ss, probe_serde());
+    { auto d = S::deserialize(b.data(), b.size(), probe_serde(), A(7)); auto r = d.get_result(); (void)r.get_n(); } }
   static void image(const S& s, Bytes& out) { put(out, s.serialize(0, probe_serde())); put(out, s.get_result().serialize(0, probe_serde())); }
 };
 
@@ -446,7 +474,8 @@ struct EbppsAd {
   template<class B> static void merge(S& a, B& b) { a.merge(b); }
   static void merge_move(S& a, S&& b) { a.merge(std::move(b)); }
   static void reset(S& s, int) { s.reset(); }
-  static void serialize(const S& s) { auto b = s.serialize(0, probe_serde()); fixed_ostream ss; s.serialize(ss, probe_serde()); }
+  static void serialize(const S& s) { auto b = s.serialize(0, probe_serde()); fixed_ostream ss; s.serialize(ss, probe_serde());
+    { auto d = S::deserialize(b.data(), b.size(), probe_serde(), A(7)); (void)d.get_n(); } }
   static void image(const S& s, Bytes& out) { put(out, s.serialize(0, probe_serde())); put_pod(out, s.get_n()); put_pod(out, s.get_c()); }
 };
 
@@ -464,7 +493,8 @@ struct BloomAd {
   template<class B> static void merge(S& a, B& b) { a.union_with(b); }
   static void merge_move(S& a, S&& b) { a.union_with(b); S sink(std::move(b)); }
   static void reset(S& s, int) { s.reset(); }
-  static void serialize(const S& s) { auto b = s.serialize(); fixed_ostream ss; s.serialize(ss); }
+  static void serialize(const S& s) { auto b = s.serialize(); fixed_ostream ss; s.serialize(ss);
+    { auto d = S::deserialize(b.data(), b.size(), A(7)); (void)d.get_bits_used(); } }
   static void image(const S& s, Bytes& out) { put(out, s.serialize()); put_pod(out, s.get_capacity()); }
 };
 
@@ -478,7 +508,8 @@ struct CountMinAd {
   template<class B> static void merge(S& a, B& b) { a.merge(b); }
   static void merge_move(S& a, S&& b) { a.merge(b); S sink(std::move(b)); }
   static void reset(S& s, int aid) { s = S(3, 16, DEFAULT_SEED, A(aid)); }
-  static void serialize(const S& s) { auto b = s.serialize(); fixed_ostream ss; s.serialize(ss); }
+  static void serialize(const S& s) { auto b = s.serialize(); fixed_ostream ss; s.serialize(ss);
+    { auto d = S::deserialize(b.data(), b.size(), DEFAULT_SEED, A(7)); (void)d.get_total_weight(); } }
   static void image(const S& s, Bytes& out) { put(out, s.serialize()); put_pod(out, s.get_total_weight()); }
 };
 
@@ -492,7 +523,8 @@ struct TDigestAd {
   template<class B> static void merge(S& a, B& b) { a.merge(b); }
   static void merge_move(S& a, S&& b) { a.merge(b); S sink(std::move(b)); }
   static void reset(S& s, int aid) { s = S(10, A(aid)); }
-  static void serialize(const S& s) { auto b = s.serialize(0, true); fixed_ostream ss; s.serialize(ss, false); }
+  static void serialize(const S& s) { auto b = s.serialize(0, true); fixed_ostream ss; s.serialize(ss, false);
+    { auto d = S::deserialize(b.data(), b.size(), A(7)); (void)d.get_total_weight(); } }
   // serializing without the buffer (like every query) first merges the buffered values into the centroids (DESIGN 4.2): the
   // digest is the compressed image, which that side effect leaves unchanged
   static void image(const S& s, Bytes& out) { put(out, s.serialize(0, false)); put_pod(out, s.get_total_weight()); }
@@ -520,7 +552,8 @@ struct DensityAd {
   template<class B> static void merge(S& a, B& b) { a.merge(b); }
   static void merge_move(S& a, S&& b) { a.merge(std::move(b)); }
   static void reset(S& s, int aid) { s = S(4, 2, life_kernel(), A(aid)); }
-  static void serialize(const S& s) { auto b = s.serialize(); fixed_ostream ss; s.serialize(ss); }
+  static void serialize(const S& s) { auto b = s.serialize(); fixed_ostream ss; s.serialize(ss);
+    { auto d = S::deserialize(b.data(), b.size(), life_kernel(), A(7)); (void)d.get_n(); } }
   static void image(const S& s, Bytes& out) { put(out, s.serialize()); put_pod(out, s.get_n()); }
 };
 
